@@ -603,6 +603,14 @@ var tampers = []tamper{
 		}
 		return true
 	}},
+	{"public_key_garbage", func(w *world, sc string, tx *lib.Transaction) bool {
+		tx.Signature.PublicKey = []byte{1, 2, 3, 4, 5, 6, 7, 8, 9, 10} // no key type has this length, no multisig decodes from it
+		return true
+	}},
+	{"signature_empty", func(w *world, sc string, tx *lib.Transaction) bool {
+		tx.Signature.Signature = nil
+		return true
+	}},
 	// the message: the address that names the owner, the beneficiary, the amount, the object
 	{"msg.owner", func(w *world, sc string, tx *lib.Transaction) bool {
 		p, err := lib.FromAny(tx.Msg)
